@@ -205,6 +205,31 @@ TECH_EXTRA["C12"] = "; running switch worker pools (vmesh live mode)"
 TECH_EXTRA["C09"] = "; multi-round histories; re-entrant link changes inside the forwarding loop with a per-handling fan-out oracle"
 TECH_EXTRA["C16"] = "; routing-table housekeeping concurrent with link events"
 
+# Round 6 additions.
+EXTRA6 = {
+ "C02": " A key pair rolled over and used for a full round trip right after each rollover; appendix growth bounded by the protocol's 10000-byte message limit.",
+ "C03": " Signed deliveries whose timestamps are spread over gaps from milliseconds to a year (signed deliverer).",
+ "C04": " Messages cut at the boundary of a fixed-length field; a message altered and then delivered again in its original form; what the victim had already done when the connection was cut (BeforeCut) is part of the oracle.",
+ "C05": " Oversized frames the parser must refuse; a link closed while traffic is in flight (no clear text after the close either); progress budget counted in bytes really sent. A link closed after a fault that cannot desynchronise the ciphers is recorded (counter), not judged.",
+ "C06": " A hello among control pings of other kinds during the quiet time.",
+ "C07": " Concurrent exact duplicates of one state-changing ping.",
+ "C08": " A refused ping must not poison later genuine announcements of the same origin; announcements delivered right after a rejected one.",
+ "C09": " Forwarding loops under link churn; work a handler hands to goroutines of its own is waited for (vmesh.Settle) before a drained network counts as quiescent.",
+ "C10": " Frames originated by the central router (TTL of the origin) and local builds the router must refuse.",
+ "C11": " Saturation at every prefix length; nested routable prefixes that start at the same address as the prefix around them, with more than the limit of destinations on both sides (limit looked up by prefix length).",
+ "C12": " Decoy links whose labels are in use elsewhere; a peer that reconnects with the same labels (second pass).",
+ "C13": " A connection that stalls in the middle of the setup; sentinel pong after the flood; four stack samples before a worker counts as stuck.",
+ "C14": " Deliver-only schedules; late initiation only offered to a side that is not set up; schedules that overlap a detected process stall are discarded, not judged.",
+ "C15": " Key-setup events must be unique per session and direction (workload 5).",
+ "C16": " A Close that never finishes is treated as abandoned after 6 s without a process stall and the registry is judged as it is; a verdict counts only if no link changed its closing state while the invariants were read and no Close was in progress.",
+ "C18": " Delta installs; each crashed child's result is judged against that child's own dump.",
+ "C19": " Handler edge cases (messages with no question or several questions handed to ServeDNS directly: no panic, no positive answer), question bursts while the reply writer is blocked (bounded progress afterwards).",
+ "C20": " Survivor mode (one peer killed, the other two must keep their link); kernel-chosen ports, a child rerun when the port was taken by another process.",
+}
+for k, v in EXTRA6.items():
+    EXTRA[k] = EXTRA.get(k, "") + v
+TECH_EXTRA["C14"] = TECH_EXTRA.get("C14", "") + "; process-stall monitor (schedules overlapping a VM stall are inconclusive, not judged)"
+
 NOT_YET = "check not implemented yet in this revision of /verif (work in progress; see DESIGN.md §8)"
 
 def main():
